@@ -60,20 +60,30 @@ def gen_case(rng, tier, direction=None, feats=None):
     d = direction or rng.choice(['fwd', 'bwd'])
     n = rng.randrange(1, 11 if tier == 'quick' else 26)
     ms_ok = rng.random() < 0.5
+    # contention mode (one case in four): most tasks on one resource, estimates that are fractions of a day's capacity, release
+    # dates spread over a fortnight - the ledger is then interleaved (a day is left and booked again later) and days are shared
+    contention = feats.get('contention', rng.random() < 0.25)
+    if contention:
+        n = max(n, rng.randrange(4, 11))
     tasks = []
     for i in range(n):
         t = {'id': i + 1, 'parent': None, 'res': rng.choice([None, 'a', 'b', 'a']), 'est': None, 'spent': None, 'ms': False,
              'min_start': None, 'start': None, 'end': None, 'member': True}
-        if rng.random() < 0.75:
+        if contention:
+            t['res'] = 'a' if rng.random() < 0.85 else rng.choice([None, 'b'])
+            t['est'] = rng.choice(['1', '2', '3', '4', '1/2', '5/2', '7', '4', '2'])
+            if d == 'fwd' and rng.random() < 0.35:
+                t['min_start'] = (BASE_DAY + rng.randrange(0, 14)) * DAY_US + rng.choice([0, 0, 6 * H])
+        elif rng.random() < 0.75:
             t['est'] = rng.choice(EST)
         if rng.random() < 0.3:
             t['spent'] = rng.choice(['0', '1', '2', '8', '1/2', '50'])
         if ms_ok and rng.random() < 0.1:
             t['ms'] = True
-        if d == 'fwd' and rng.random() < 0.2:
+        if d == 'fwd' and not contention and rng.random() < 0.2:
             t['min_start'] = (BASE_DAY + rng.randrange(-5, 30)) * DAY_US + rng.choice([0, 0, 6 * H])
         cands = [j for j in range(i) if not tasks[j]['ms']]
-        if cands and rng.random() < 0.6:
+        if cands and rng.random() < (0.2 if contention else 0.6):
             t['parent'] = rng.choice(cands)
         tasks.append(t)
     has_child = set(t['parent'] for t in tasks if t['parent'] is not None)
@@ -123,7 +133,7 @@ def gen_case(rng, tier, direction=None, feats=None):
         links.append([a, b])
     resources = []
     for name in ['a', 'b', None]:
-        if rng.random() < 0.3:
+        if rng.random() < 0.3 and not (contention and name == 'a'):
             continue
         resources.append([name, rng.choice(CALS)(rng)])
     dead = None
@@ -131,7 +141,7 @@ def gen_case(rng, tier, direction=None, feats=None):
         dead = rng.randrange(len(DEAD))
         resources = [r for r in resources if r[0] != 'b'] + [['b', DEAD[dead](rng)]]
     case = {'dir': d, 'tasks': tasks, 'links': links, 'resources': resources, 'bound': bound, 'clock': clock,
-            'balance': rng.random() < 0.7, 'defaultEst': rng.choice(['0', '0', '8', '3']), 'floats': rng.random() < 0.5,
+            'balance': rng.random() < (0.9 if contention else 0.7), 'defaultEst': rng.choice(['0', '0', '8', '3']), 'floats': rng.random() < 0.5,
             'dead': dead}
     # keep only the links the graph API accepts (the case stays replayable: rejected links are dropped)
     case['links'] = build(case)[3]
